@@ -193,6 +193,7 @@ def edge_cases():
          "h": {"kind": "zero", "vals": [0, 0, 0, 0]}, "aw": [1, 1], "bf_target": 3, "fw_directed": True}
     yield g
     yield {**g, "max_cost": 7}
+    yield {**g, "max_cost": 6, "goal": {"mode": "pred", "set": [2, 3]}}
     yield {**g, "n": 1, "edges": [], "goal": {"mode": "value", "set": [0]}, "h": {"kind": "zero", "vals": [0]},
            "bf_target": 0}
     yield {**g, "n": 1, "edges": [[0, 0, -1]], "goal": {"mode": "value", "set": [0]}, "h": {"kind": "zero", "vals": [0]},
@@ -846,11 +847,37 @@ def run_cases(ctx, cases):
             judge_grid(ctx, c, o[1], rp)
 
 
+def malformed(_):
+    """inputs outside the documented domain: only the error kind is recorded (never judged)"""
+    from solvor.bellman_ford import bellman_ford
+    from solvor.floyd_warshall import floyd_warshall
+    probes = {
+        "bellman_ford:n=0": lambda: bellman_ford(0, [], 0, backend="python"),
+        "bellman_ford:start_out_of_range": lambda: bellman_ford(5, [(0, 1, 1.0)], 3, backend="python"),
+        "bellman_ford:edge_out_of_range": lambda: bellman_ford(0, [(0, 7, 1.0)], 3, backend="python"),
+        "bellman_ford:target_out_of_range": lambda: bellman_ford(0, [(0, 1, 1.0)], 3, target=9, backend="python"),
+        "floyd_warshall:n=0": lambda: floyd_warshall(0, [], backend="python"),
+        "floyd_warshall:edge_out_of_range": lambda: floyd_warshall(2, [(0, 2, 1.0)], backend="python"),
+    }
+    out = {}
+    for k, f in probes.items():
+        try:
+            f()
+            out[k] = "accepted"
+        except Exception as e:  # noqa: BLE001
+            out[k] = type(e).__name__
+    return out
+
+
 def run(ctx, budget):
     ctx.cov["rule"] = RULE
+    for r in run_pool(malformed, [0], timeout=20.0):
+        if r[0] == "ok":
+            for k, v in r[1].items():
+                ctx.count(f"malformed:{k}:{v}")
     cases = list(edge_cases()) + [c["case"] for c in core.load_corpus("C11")]
     big = ctx.tier == "thorough"
-    ng, nq = 1400 * budget, 700 * budget
+    ng, nq = 10000 * budget, 4000 * budget
     cases += [gen_graph(ctx.rng, big and i % 3 == 0) for i in range(ng)]
     cases += [gen_grid(ctx.rng, big and i % 3 == 0) for i in range(nq)]
     run_cases(ctx, cases)
